@@ -4,12 +4,12 @@
    Gen/Transforms.v (node_objects_matrix, node_children_matrix, instance_node_matrix,
    scene_root_matrix, *_node_matrix, *_node_kind).  Library nodes are embedded at their
    instantiation points (the loader resolves instance_node to the node object; C07).
-   Bound primitives, lights and cameras follow triangleset.py/polylist.py/lineset.py,
-   light.py and camera.py (hand-written, tied by the correspondence).
+   Bound primitives, the material table and look-up, lights, cameras and the skin's geometry
+   matrix are the GENERATED definitions of Gen/Bound.v, selected by the binding class.
    SPEC: [paths] (pre-order list of root-to-leaf instance paths), the product of the
    matrices down a path, R.v + t and R.n through [mapply], the last binding of a symbol. *)
 From Coq Require Import List Bool ZArith NArith.
-From PC Require Import Base.Py Base.Mat Gen.Transforms.
+From PC Require Import Base.Py Base.Mat Gen.Transforms Gen.Bound.
 Import ListNotations.
 
 Section Traverse.
@@ -84,24 +84,31 @@ Section Traverse.
   Definition spec_objects (k : nat) (nodes : list snode) : list bound :=
     map bind_path (filter (fun p => Nat.eqb (leaf_kind (snd p)) k) (scene_paths nodes)).
 
-  (* ---- bound primitives (BoundTriangleSet / BoundPolylist / BoundPolygons / BoundLineSet):
-       M = numpy.asmatrix(matrix).transpose()
-       vertex = asarray(v * M[:3,:3]) + matrix[:3,3]      normal = asarray(n * M[:3,:3]) *)
-  Definition row_times_3x3 (A : matR) (v : vec3 R) : vec3 R :=      (* row vector times A[:3,:3] *)
-    let '(v0, v1, v2) := v in
-    let add := oadd O in let mul := omul O in
-    (add (add (mul v0 (m00 A)) (mul v1 (m10 A))) (mul v2 (m20 A)),
-     add (add (mul v0 (m01 A)) (mul v1 (m11 A))) (mul v2 (m21 A)),
-     add (add (mul v0 (m02 A)) (mul v1 (m12 A))) (mul v2 (m22 A))).
-  Definition bound_vertex (matrix : matR) (v : vec3 R) : vec3 R :=
-    vadd (oadd O) (row_times_3x3 (mtrans matrix) v) (mcol3 (o0 O) matrix 3).
-  Definition bound_normal (matrix : matR) (n : vec3 R) : vec3 R :=
-    row_times_3x3 (mtrans matrix) n.
+  (* ---- bound primitives, materials, lights, cameras, skins: the GENERATED definitions of Gen/Bound.v
+     (re-emitted from triangleset.py, polylist.py, lineset.py, light.py, camera.py, controller.py and
+     the instance nodes of scene.py on every run), selected by the class that does the binding.
+     Primitive class: 0 BoundTriangleSet, 1 BoundPolylist (BoundPolygons inherits it), 2 BoundLineSet. *)
+  Definition bound_vertex (pk : nat) (matrix : matR) (v : vec3 R) : vec3 R :=
+    match pk with
+    | 0%nat => triangleset_bound_vertex O matrix v
+    | 1%nat => polylist_bound_vertex O matrix v
+    | _ => lineset_bound_vertex O matrix v
+    end.
+  Definition bound_normal (pk : nat) (matrix : matR) (n : vec3 R) : vec3 R :=
+    match pk with
+    | 0%nat => triangleset_bound_normal O matrix n
+    | 1%nat => polylist_bound_normal O matrix n
+    | _ => lineset_bound_normal O matrix n
+    end.
 
-  (* materialnodesbysymbol[mat.symbol] = mat for every instance_material in order, then .get(symbol) *)
-  Definition material_dict (b : binds) : dict (K := N) (V := N) :=
-    fold_left (fun d sm => dset N.eqb d (fst sm) (snd sm)) b [].
-  Definition material_of (b : binds) (symbol : N) : option N := dget N.eqb (material_dict b) symbol.
+  (* the table GeometryNode.objects / ControllerNode.objects (ctrl) build, then the primitive's look-up *)
+  Definition material_of (ctrl : bool) (pk : nat) (b : binds) (symbol : N) : option N :=
+    let table := if ctrl then controller_node_material_table b else geometry_node_material_table b in
+    match pk with
+    | 0%nat => triangleset_material table symbol
+    | 1%nat => polylist_material table symbol
+    | _ => lineset_material table symbol
+    end.
   (* SPEC: the last binding of that symbol on the instance, else None *)
   Definition last_binding (b : binds) (symbol : N) : option N :=
     match find (fun sm => N.eqb symbol (fst sm)) (rev b) with
@@ -109,25 +116,29 @@ Section Traverse.
     | None => None
     end.
 
-  (* ---- bound lights and cameras.  Light kinds: 0 point, 1 directional, 2 spot, 3 ambient *)
-  Definition col_opp (A : matR) (j : nat) : vec3 R :=
-    let '(a, b, c) := mcol3 (o0 O) A j in (oopp O a, oopp O b, oopp O c).
-  (* (position, direction, up) as each class defines them; None where the class has no such attribute *)
+  (* (position, direction, up) as each class defines them; None where the class has no such attribute.
+     Light class: 0 BoundPointLight, 1 BoundDirectionalLight, 2 BoundSpotLight, 3 BoundAmbientLight *)
   Definition bound_light (kind : nat) (pos dir : vec3 R) (M : matR)
     : option (vec3 R) * option (vec3 R) * option (vec3 R) :=
     match kind with
-    | 0%nat => (Some (vadd (oadd O) (lin_apply (oadd O) (omul O) M pos) (mcol3 (o0 O) M 3)), None, None)
-    | 1%nat => (None, Some (lin_apply (oadd O) (omul O) M dir), None)
-    | 2%nat => (Some (mcol3 (o0 O) M 3), Some (col_opp M 2), Some (mcol3 (o0 O) M 1))
+    | 0%nat => (Some (point_light_position O M pos), None, None)
+    | 1%nat => (None, Some (directional_light_direction O M dir), None)
+    | 2%nat => (Some (spot_light_position O M), Some (spot_light_direction O M), Some (spot_light_up O M))
     | _ => (None, None, None)
     end.
-  Definition bound_camera (M : matR) : vec3 R * vec3 R * vec3 R :=
-    (mcol3 (o0 O) M 3, col_opp M 2, mcol3 (o0 O) M 1).
+  (* camera class: 0 BoundPerspectiveCamera, 1 BoundOrthographicCamera *)
+  Definition bound_camera (ck : nat) (M : matR) : vec3 R * vec3 R * vec3 R :=
+    match ck with
+    | 0%nat => (perspective_camera_position O M, perspective_camera_direction O M, perspective_camera_up O M)
+    | _ => (orthographic_camera_position O M, orthographic_camera_direction O M, orthographic_camera_up O M)
+    end.
+  (* the matrix a bound skin binds its geometry with *)
+  Definition skin_matrix (M bind_shape : matR) : matR := skin_geometry_matrix O M bind_shape.
 End Traverse.
 
 Arguments SNode {R}. Arguments SInst {R}. Arguments SGeom {R}. Arguments SCtrl {R}.
 Arguments SLight {R}. Arguments SCam {R}. Arguments SExtra {R}.
 Arguments objects {R}. Arguments scene_objects {R}. Arguments paths {R}. Arguments scene_paths {R}.
 Arguments path_matrix {R}. Arguments bind_path {R}. Arguments spec_objects {R}.
-Arguments row_times_3x3 {R}. Arguments bound_vertex {R}. Arguments bound_normal {R}.
-Arguments bound_light {R}. Arguments bound_camera {R}. Arguments col_opp {R}.
+Arguments bound_vertex {R}. Arguments bound_normal {R}.
+Arguments bound_light {R}. Arguments bound_camera {R}. Arguments skin_matrix {R}.
